@@ -1,6 +1,7 @@
 (* C20 — An I/O failure stops the per-device loop at once.  Statements only;
    proofs are in TM.LoopLemmas (shape of Loop.run) and TM.LoopSim (monitor). *)
-From TM Require Import Base Mapper Monitors Loop LoopEnv LoopSpec LoopLemmas.
+From TM Require Import Base Mapper Monitors MapperInv Trace Loop LoopEnv LoopMonitors LoopSpec LoopLemmas LoopSends
+                       LoopTablet LoopSim LoopProps.
 
 (* For EVERY key classification, EVERY layout and EVERY script of answers (any
    length, any answers, an Err at any position and to any call): if the
@@ -64,6 +65,48 @@ Theorem C20_calls_prefix :
     exists more, fst (Loop.run is_action L (rs1 ++ rs2)) = fst (Loop.run is_action L rs1) ++ more.
 Proof. intros ia L rs1 rs2. exact (run_from_app_prefix ia L rs1 rs2 PRegister linit). Qed.
 Print Assumptions C20_calls_prefix.
+
+(* It never continues with a mapper state that no longer matches what was
+   actually written: in EVERY configuration of EVERY run (layout accepted by
+   Mapper::for_layout), the events of all ACKNOWLEDGED sends so far, followed by
+   the send the loop is waiting on (if any), form a trace without redundant
+   events from the empty held set to exactly the mapper's own held set
+   (`tr_ok`); so a send that failed — which by C20_error_stops ends the run — is
+   never followed by a write computed from the bookkeeping of the failed one. *)
+Theorem C20_writes_match_mapper_state :
+  forall (is_action : key -> bool) (L : layout),
+    for_layout_ok L = true ->
+    forall (rs : list resp) (cs : list call) (o : outcome) (k : nat) (x : conf),
+    Loop.run is_action L rs = (cs, o) -> conf_at is_action L rs k = Some x ->
+    tr_ok [] (acked (firstn k (combine cs rs)) ++ pending_send (c_point x))
+          (held_of (l_mapper (c_state x))).
+Proof.
+  intros ia L Hok rs cs o k x Hrun Hx.
+  exact (proj1 (proj2 (held_at ia L (proj1 (for_layout_ok_wf L) Hok) rs cs o k x Hrun Hx))).
+Qed.
+Print Assumptions C20_writes_match_mapper_state.
+
+(* The extracted checkers (what the loop engine applies to the real loop with
+   an Err injected at every call index) never report the C20 clause on the
+   model's own annotated transcript: no call after an Err answer, and the
+   return value is that error. *)
+Theorem C20_monitor_never_fires :
+  forall (is_action : key -> bool) (L : layout),
+    for_layout_ok L = true ->
+    forall (rs : list resp) (cs : list call) (o : outcome) (t0 tol : Z) (n : N),
+    (0 <= tol)%Z -> Loop.run is_action L rs = (cs, o) ->
+    ~ In (n, L_C20_stops) (check_transcript is_action L tol (annotate t0 cs rs)).
+Proof. intros ia L Hok rs cs o t0 tol n Htol Hrun. exact (monitors_silent_clause ia L Hok rs cs o t0 tol n L_C20_stops Htol Hrun). Qed.
+Print Assumptions C20_monitor_never_fires.
+
+(* `o <> Mismatch`: the script answers every call with an answer of the call's
+   type (always so for a real Driver). *)
+Theorem C20_outcome_monitor_never_fires :
+  forall (is_action : key -> bool) (L : layout) (rs : list resp) (cs : list call) (o : outcome) (t0 : Z),
+    Loop.run is_action L rs = (cs, o) -> o <> Mismatch ->
+    check_outcome (annotate t0 cs rs) o = [].
+Proof. exact LoopSim.outcome_monitor_never_fires. Qed.
+Print Assumptions C20_outcome_monitor_never_fires.
 
 (* Non-vacuity: A -> B on a concrete script; an Err at the 5th call (the send of
    the step output) ends the run there although the script goes on. *)
